@@ -1,4 +1,5 @@
 import NomtModel.Store.OvfMain
+import NomtModel.Generated.Constants
 /-!
 # C16 (topic: the byte formats of overflow cells and overflow pages — `beatree/ops/overflow.rs`)
 
@@ -40,6 +41,14 @@ theorem T16_overflow_page_format (junk : Bytes) (pns : List Nat) (bytes : Bytes)
         parsePage page = some (pns', bytes') → 4 * pns'.length + bytes'.length ≤ BODY_SIZE ∧ ∀ x ∈ pns', x < 2 ^ 32) :=
   ⟨rfl, length_mkPage junk pns bytes hj hfit, parsePage_mkPage junk pns bytes hj hp hfit,
    fun page pns' bytes' hl h => parsePage_bounds page hl pns' bytes' h⟩
+
+/-- T16.ovf-const the constants of the overflow model are the ones extracted from the Rust sources on every run
+(`tools/gen_constants.py` → `Generated/Constants.lean`): a changed constant breaks this obligation. -/
+theorem T16_const_overflow :
+    Ovf.PAGE_SIZE = Gen.PAGE_SIZE ∧ Ovf.BODY_SIZE = Gen.OVERFLOW_BODY_SIZE ∧ Ovf.MAX_PNS = Gen.OVERFLOW_MAX_PNS ∧
+    Ovf.HEADER_SIZE = Gen.OVERFLOW_HEADER_SIZE ∧ Ovf.MAX_CELL_PNS = Gen.MAX_OVERFLOW_CELL_NODE_POINTERS ∧
+    Ovf.MAX_VALUE_SIZE = Gen.MAX_OVERFLOW_VALUE_SIZE ∧ Ovf.LEAF_NODE_BODY_SIZE = Gen.LEAF_NODE_BODY_SIZE ∧
+    Ovf.MAX_LEAF_VALUE_SIZE = Gen.MAX_LEAF_VALUE_SIZE ∧ 4 * Ovf.MAX_PNS = Ovf.BODY_SIZE := by decide
 
 example : encodeCell 70000 (List.replicate 32 1) [5000, 4997] =
     some (leBytes 8 70000 ++ List.replicate 32 1 ++ (leBytes 4 5000 ++ leBytes 4 4997)) := by decide
